@@ -18,9 +18,10 @@ Proved here, for ALL expressions / parameter lists / statements:
  * `orTrue_exact`, `andFalse_exact`, `floatEq_exact` : reports of 15 / 16 / 21 at a binary node ⇔ the
    documented shape;
  * `arity_exact` : 7 / 8 ⇔ more values than targets, or fewer values all of which are single-valued.
-Findings (model = implementation ≠ property, `K1_witness`, `K2_witness`): identical operands that are not
-access paths and duplicate boolean / float / negative keys are not reported; the run-time check compares
-the model with the wider specification Spec/Pat.lean to tell these classes from anything else.
+Finding (model = implementation ≠ property, `K1_witness`): identical operands that are not access paths are
+not reported; the run-time check compares the model with the wider specification Spec/Pat.lean to tell this
+class from anything else.  Type 5 is exact: `dupKeys_iff_spec` (boolean, float-by-value and unary-operator
+keys were added by the repair of the former finding K2, `K2_repaired`, `K2_repaired_values`).
 -/
 import LuaHelper.Model.Pat
 import LuaHelper.Proofs.Pat
@@ -542,26 +543,18 @@ theorem local_arity_exact (n : Nat) (exps : List Exp) (l : Loc) :
 
 /-! ### type 5: duplicate keys of a table constructor -/
 
-/-- the same constant key written twice: two integer keys with the same value, two string keys with the
-    same text (`a = …` is the string key "a"), or the same variable in brackets -/
-def sameKey : Exp → Exp → Bool
-  | .int a _, .int b _ => a == b
-  | .str a _, .str b _ => a == b
-  | .name a _, .name b _ => a == b
-  | _, _ => false
-
-/-- the key strings of two keys are equal exactly when they are the same constant key: the three
-    encodings ("#int" + digits, '"' + text, "!" + name) are injective and disjoint -/
+/-- the key strings of two keys are equal exactly when the keys are the same constant expression (CompExp: the same
+    integer, string, bracketed name, boolean, float VALUE, or the same unary operator on such a key): the encodings
+    ("#int" + digits, '"' + text, "!" + name, "#true", "#false", "#flt" + value, "#op" n ":" key) are injective
+    and pairwise disjoint -/
 theorem keyStr_same (k1 k2 : Exp) (p : Loc) (s1 s2 : Bytes) (l1 l2 : Loc)
     (h1 : keyStr k1 p = some (s1, l1)) (h2 : keyStr k2 p = some (s2, l2)) :
-    s1 = s2 ↔ sameKey k1 k2 = true := by
-  cases k1 <;> simp only [keyStr, Option.some.injEq, Prod.mk.injEq, reduceCtorEq] at h1 <;>
-    cases k2 <;> simp only [keyStr, Option.some.injEq, Prod.mk.injEq, reduceCtorEq] at h2 <;>
-    obtain ⟨rfl, rfl⟩ := h1 <;> obtain ⟨rfl, rfl⟩ := h2 <;> simp [sameKey, intKeyPrefix]
-  · constructor
-    · exact intStr_inj _ _
-    · intro h; rw [h]
+    s1 = s2 ↔ compExp k1 k2 = true := keyStr_eq_iff p k1 k2 s1 s2 l1 l2 h1 h2
 #print axioms keyStr_same
+
+/-- a key has a key string exactly when it is a constant key in the sense of the specification -/
+theorem keyStr_defined_iff (k : Exp) (p : Loc) : (keyStr k p).isSome = PatSpec.litKey k := keyStr_isSome p k
+#print axioms keyStr_defined_iff
 
 theorem dupFrom_mem (parent : Loc) (r : Rep) : ∀ (ks : List Exp) (seen : List Bytes),
     r ∈ dupFrom parent ks seen ↔
@@ -672,10 +665,66 @@ theorem dupKeys_exact (keys : List Exp) (parent : Loc) (r : Rep) :
 
 /-- with `keyStr_same`: the earlier key is the same constant key -/
 theorem dupKeys_sameKey (keys : List Exp) (parent : Loc) (r : Rep) (h : r ∈ dupKeys keys parent) :
-    ∃ pre k post, keys = pre ++ k :: post ∧ ∃ k' ∈ pre, sameKey k' k = true := by
+    ∃ pre k post, keys = pre ++ k :: post ∧ PatSpec.litKey k = true ∧ ∃ k' ∈ pre, compExp k' k = true := by
   obtain ⟨pre, k, post, s, l, hs, hk, _, k', hk', l', hl'⟩ := (dupKeys_exact keys parent r).1 h
-  exact ⟨pre, k, post, hs, k', hk', (keyStr_same k' k parent s s l' l hl' hk).1 rfl⟩
+  refine ⟨pre, k, post, hs, ?_, k', hk', (keyStr_same k' k parent s s l' l hl' hk).1 rfl⟩
+  rw [← keyStr_defined_iff k parent, hk]; rfl
 #print axioms dupKeys_sameKey
+
+/-- type 5 is EXACTLY what the specification Spec/Pat.lean asks for (since the repair of finding K2, which added
+    boolean, float and unary-operator keys): a constant key is reported iff an earlier key of the same constructor
+    is the same constant expression -/
+theorem dupKeys_iff_spec (keys : List Exp) (parent : Loc) (r : Rep) :
+    r ∈ dupKeys keys parent ↔ r ∈ PatSpec.specDupKeys keys parent := by
+  rw [dupKeys_exact]
+  unfold PatSpec.specDupKeys
+  simp only [List.mem_filterMap, List.mem_range]
+  constructor
+  · rintro ⟨pre, k, post, s, l, hs, hk, hr, k', hk', l', hl'⟩
+    refine ⟨pre.length, by rw [hs]; simp, ?_⟩
+    have hget : keys[pre.length]? = some k := by rw [hs]; simp
+    have htake : keys.take pre.length = pre := by rw [hs]; simp
+    have hlit : PatSpec.litKey k = true := by rw [← keyStr_defined_iff k parent, hk]; rfl
+    have hany : (pre.any fun ki => compExp ki k) = true := by
+      rw [List.any_eq_true]
+      exact ⟨k', hk', (keyStr_same k' k parent s s l' l hl' hk).1 rfl⟩
+    rw [hget]
+    simp only [htake, hlit, hany, Bool.and_self, if_true, hk, hr, Option.some.injEq]
+    rw [keyStr_loc parent k s l hk]
+  · rintro ⟨j, hj, hrep⟩
+    cases hget : keys[j]? with
+    | none => rw [hget] at hrep; simp at hrep
+    | some k =>
+      rw [hget] at hrep
+      simp only at hrep
+      split at hrep
+      · rename_i hc
+        simp only [Bool.and_eq_true, List.any_eq_true] at hc
+        obtain ⟨hlit, k', hk', hcomp⟩ := hc
+        have hsome : (keyStr k parent).isSome = true := by rw [keyStr_defined_iff]; exact hlit
+        cases hk : keyStr k parent with
+        | none => rw [hk] at hsome; cases hsome
+        | some v =>
+          obtain ⟨s, l⟩ := v
+          have hlit' := compExp_litKey k' k hcomp hlit
+          have hsome' : (keyStr k' parent).isSome = true := by rw [keyStr_defined_iff]; exact hlit'
+          cases hk2 : keyStr k' parent with
+          | none => rw [hk2] at hsome'; cases hsome'
+          | some v' =>
+            obtain ⟨s', l'⟩ := v'
+            have hss : s' = s := (keyStr_same k' k parent s' s l' l hk2 hk).2 hcomp
+            have hsplit : keys = keys.take j ++ k :: keys.drop (j + 1) := by
+              have hjl : j < keys.length := hj
+              have : keys[j] = k := by
+                have := List.getElem?_eq_getElem hjl
+                rw [this] at hget; exact Option.some.inj hget
+              rw [← this, List.getElem_cons_drop, List.take_append_drop]
+            refine ⟨keys.take j, k, keys.drop (j + 1), s, l, hsplit, hk, ?_, k', hk', l', by rw [hk2, hss]⟩
+            rw [hk] at hrep
+            simp only [Option.some.injEq] at hrep
+            rw [← hrep, keyStr_loc parent k s l hk]
+      · cases hrep
+#print axioms dupKeys_iff_spec
 
 /-- the former false positives: a string key never equals a name key or an integer key, whatever its
     text (`{ ["!x"] = 1, [x] = 2 }`, `{ ["#int1"] = 1, [1] = 2 }`), and the empty string key is a key -/
@@ -692,10 +741,23 @@ theorem empty_string_key_checked (l1 l2 p : Loc) :
 #print axioms string_key_is_not_int_key
 #print axioms empty_string_key_checked
 
-/-- finding C20-K2 (model = implementation ≠ property): duplicate boolean or float keys are not reported -/
-theorem K2_witness (l1 l2 p : Loc) : dupKeys [.tru l1, .tru l2] p = [] := by
-  simp [dupKeys, dupKeys.go, keyStr]
-#print axioms K2_witness
+/-- the former finding C20-K2, repaired: duplicate boolean, float (equal VALUE, whatever the spelling) and
+    negated keys are reported -/
+theorem K2_repaired (l1 l2 p : Loc) :
+    dupKeys [.tru l1, .tru l2] p = [{ ty := 5, loc := l2, tag := trueKey }] ∧
+    dupKeys [.tru l1, .fls l2] p = [] := by
+  refine ⟨by simp [dupKeys, dupKeys.go, keyStr], by simp [dupKeys, dupKeys.go, keyStr, trueKey, falseKey]⟩
+/-- 1.5 and 15e-1 are one key (the value decides, not the spelling), -1 twice is one key, 1 and -1 are two -/
+theorem K2_repaired_values (l1 l2 l3 l4 p : Loc) :
+    dupKeys [.flt [49, 46, 53] l1, .flt [49, 53, 101, 45, 49] l2] p =
+      [{ ty := 5, loc := l2, tag := fltKeyPrefix ++ fltKey [49, 53, 101, 45, 49] }] ∧
+    (dupKeys [.unop .minus (.int 1 l1) l2, .unop .minus (.int 1 l3) l4] p).map (·.loc) = [l4] ∧
+    dupKeys [.int 1 l1, .unop .minus (.int 1 l3) l4] p = [] := by
+  have h : fltKey [49, 46, 53] = fltKey [49, 53, 101, 45, 49] := (fltKey_eq_iff _ _).2 (by decide)
+  refine ⟨by simp [dupKeys, dupKeys.go, keyStr, h], by simp [dupKeys, dupKeys.go, keyStr],
+    by simp [dupKeys, dupKeys.go, keyStr, intKeyPrefix, opKeyPrefix]⟩
+#print axioms K2_repaired_values
+#print axioms K2_repaired
 
 /-! ### type 14: identical operands -/
 
